@@ -4,18 +4,25 @@
    while the user has not finished its call history). *)
 EXTENDS RexAsync
 
-MaxTick == 4
+CONSTANT MaxTick
 UserDone == pc["user"] = "Done"
 NextT == Next \/ (UserDone /\ UNCHANGED vars)
 SpecT == Init /\ [][NextT]_vars
 Bound == \A n \in Nodes : tick[n] <= MaxTick
+
+(* Granularity of the coarse gate: between two scheduling points a thread runs alone.  A thread that stands at a label that is
+   not a scheduling point is in the middle of such a segment and is the only one allowed to move. *)
+PointLabels == {"nw0", "cw0", "pst1", "pst2", "pst4", "pst6", "pp1", "pp2", "pp6", "ps3", "ns1", "ns2", "sel1", "tm1",
+                "us1", "us2", "us4", "us7", "ua2", "ua5", "ua8", "ua9", "ur1", "ux1", "Done"}
+Mid == {t \in ProcSet : ~(pc[t] \in PointLabels)}
+SegmentAtomic == Mid = {} \/ \E t \in Mid : pc'[t] # pc[t] \/ stack'[t] # stack[t]
 
 NoRaise == raised = ""
 (* C06: every executed tick of every node ran exactly once, in order *)
 ExactlyOnce == \A n \in Nodes : \A i \in 1..Len(execd[n]) : execd[n][i] = i - 1
 (* C05: each episode starts at tick 0 / time >= 0 and holds only steps and messages of its own episode *)
 EpisodeIsolation ==
-  /\ \A n \in Nodes : \A i \in 1..Len(recSteps[n]) : recSteps[n][i].tick = i - 1 /\ recSteps[n][i].eps = neps[n]
+  /\ \A n \in Nodes : \A i \in 1..Len(recSteps[n]) : (recSteps[n][i].out = "val" => recSteps[n][i].tick = i - 1) /\ recSteps[n][i].eps = neps[n]
   /\ \A x \in Conns : \A i \in 1..Len(recMsgs[x]) : recMsgs[x][i].out = i - 1 /\ recMsgs[x][i].eps = neps[ConnC(x).dst]
 (* C03: messages are consumed in order by non-decreasing receiver ticks, received no earlier than sent *)
 MessagesOrdered ==
